@@ -80,6 +80,7 @@ class Traced:
         od, os_ = eqx.partition(out, _is_arr)
         self._out_static = os_
         ol, self.out_tree = jax.tree_util.tree_flatten(od)
+        self.out_paths = [jax.tree_util.keystr(kp) for kp, _ in jax.tree_util.tree_flatten_with_path(od)[0]]
         return ol
 
     def _rebuild(self, leaves):
@@ -145,10 +146,13 @@ class Traced:
         if self.out_tree is None:          # not traced (lazy replay): the structure of the concrete output itself
             od, os_ = eqx.partition(out, _is_arr)
             ol, self.out_tree = jax.tree_util.tree_flatten(od); self._out_static = os_
+            self.out_paths = [jax.tree_util.keystr(kp) for kp, _ in jax.tree_util.tree_flatten_with_path(od)[0]]
         n = self.out_tree.num_leaves
-        template = jax.tree_util.tree_unflatten(self.out_tree, list(range(n)))
-        picked = jax.tree_util.tree_map(lambda t, x: (None if t is None else np.asarray(x)), template, out, is_leaf=lambda x: x is None)
-        ol = [l for l in jax.tree_util.tree_leaves(picked, is_leaf=lambda x: isinstance(x, np.ndarray)) if isinstance(l, np.ndarray)]
+        # leaves are matched by key path (never by comparing tree structures: a static field that holds an array -- e.g.
+        # DataGeneratorParameter.param_ranges -- holds a dead tracer in the structure recorded at trace time)
+        by_path = {jax.tree_util.keystr(kp): l for kp, l in jax.tree_util.tree_flatten_with_path(out)[0]}
+        paths = getattr(self, "out_paths", None)
+        ol = [np.asarray(by_path[p]) for p in paths] if (paths is not None and all(p in by_path for p in paths)) else []
         if len(ol) != n:       # fall back to the array leaves of the concrete output
             od, _ = eqx.partition(out, _is_arr)
             ol = [np.asarray(o) for o in jax.tree_util.tree_flatten(od)[0]]
@@ -451,7 +455,10 @@ class Recorder:
 
     def _replay(self, prog, tr, goal_fn, gname, model, hints, concrete_pred=None):
         r = self._replay_inproc(prog, tr, goal_fn, gname, model, hints, concrete_pred)
-        if r.get("reproduced") is False and self.replay is None and not os.environ.get("VF_NO_FRESH"):
+        # (programs with PRNG stubs are traced before their replay anyway: nothing to gain there; at most 3 attempts per configuration)
+        if (r.get("reproduced") is False and self.replay is None and not os.environ.get("VF_NO_FRESH") and not tr.use_stubs
+                and getattr(self, "_fresh_used", 0) < 3):
+            self._fresh_used = getattr(self, "_fresh_used", 0) + 1
             # this process has already run the code (at least the trace): a failure that needs the recorded call to be the FIRST
             # one in its process (state kept at module level) is replayed in a fresh interpreter, untraced
             r2 = self._fresh_replay(prog, gname, model)
@@ -469,7 +476,7 @@ class Recorder:
                 json.dump(dict(property=self.prop, cfg=self.cfg, prog=prog, goal=gname, key="", seed=self.seed, tier=self.tier,
                                model={k: (str(v) if isinstance(v, Fraction) else v) for k, v in model.items()}, note=""), f)
             env = dict(os.environ, VF_NO_FRESH="1")
-            p = subprocess.run([sys.executable, "-m", "vf.main", self.prop, "--replay", path], capture_output=True, text=True, timeout=600, env=env, cwd="/verif")
+            p = subprocess.run([sys.executable, "-m", "vf.main", self.prop, "--replay", path], capture_output=True, text=True, timeout=180, env=env, cwd="/verif")
             txt = p.stdout
             k = txt.find("{")
             if k < 0: return None
